@@ -82,7 +82,8 @@ class Scratch:
             return f.read()
 
 
-MEM_LIMIT = int(os.environ.get("VERIF_MEM_GB", "16")) * (1 << 30)
+# address space, not resident memory: CBMC maps far more than it touches (a 3.7 GB-resident harness needed > 16 GB of address space)
+MEM_LIMIT = int(os.environ.get("VERIF_MEM_GB", "40")) * (1 << 30)
 
 
 def _limit():
